@@ -2611,6 +2611,14 @@ int32 matrixValidateCertsExt(psPool_t *pool, psX509Cert_t *subjectCerts,
     ic = issuerCerts;
     while (ic != NULL)
     {
+        if (ic->parseStatus != PS_X509_PARSE_SUCCESS)
+        {
+            /* A bundle may be loaded although some of its members were
+               refused by the parser (unsupported critical extension, weak
+               key, ...): such a half-filled entry is not a trust anchor. */
+            ic = ic->next;
+            continue;
+        }
         sc->authStatus = PS_FALSE;
         if ((rc = psX509AuthenticateCert(pool, sc, ic, foundIssuer, hwCtx,
                  poolUserPtr)) == PS_SUCCESS)
